@@ -155,6 +155,36 @@ def _dotted(node: ast.expr) -> Optional[str]:
     return None
 
 
+class _Desugar(ast.NodeTransformer):
+    """Source-level normal forms applied to every module before any analysis sees it (positions are kept):
+
+    * ``for i in np.flatnonzero(M): body``  ->  ``for i in range(len(M)): if not M[i]: continue; body``
+      (same iterations in the same order for a 1-d mask M; the loop then has the whole-axis shape every loop rule knows)"""
+
+    def visit_For(self, node: ast.For):
+        self.generic_visit(node)
+        it = node.iter
+        if isinstance(it, ast.Call) and isinstance(it.func, ast.Attribute) and it.func.attr == "flatnonzero" \
+                and isinstance(it.func.value, ast.Name) and it.func.value.id in ("np", "numpy") and len(it.args) == 1 \
+                and not it.keywords and isinstance(node.target, ast.Name) and not node.orelse:
+            m = it.args[0]
+            new_iter = ast.Call(func=ast.Name(id="range", ctx=ast.Load()),
+                                args=[ast.Call(func=ast.Name(id="len", ctx=ast.Load()), args=[m], keywords=[])], keywords=[])
+            guard = ast.If(test=ast.UnaryOp(op=ast.Not(), operand=ast.Subscript(value=m, slice=ast.Name(id=node.target.id, ctx=ast.Load()),
+                                                                                ctx=ast.Load())),
+                           body=[ast.Continue()], orelse=[])
+            ast.copy_location(new_iter, it)
+            ast.copy_location(guard, node.body[0] if node.body else node)
+            for sub in ast.walk(guard):
+                ast.copy_location(sub, guard)
+            for sub in ast.walk(new_iter):
+                if not hasattr(sub, "lineno"):
+                    ast.copy_location(sub, it)
+            node.iter = new_iter
+            node.body = [guard] + node.body
+        return node
+
+
 class Program:
     def __init__(self, root: str = "/repo"):
         self.root = root
@@ -186,6 +216,8 @@ class Program:
                     tree = ast.parse(src, filename=path)
                 except SyntaxError as e:
                     raise AnalysisError(f"syntax error in {path}: {e}")
+                tree = _Desugar().visit(tree)
+                ast.fix_missing_locations(tree)
                 m = Module(
                     name=modname,
                     path=path,
